@@ -61,7 +61,8 @@ def make_generator(t, req):
 class Run(object):
     """one execution of a set of generator requests under a given choice sequence"""
 
-    def __init__(self, t, requests, choices, on_step=None, default="first"):
+    def __init__(self, t, requests, choices, on_step=None, default="first", eager=False):
+        self.eager = eager       # create every request object before the first step (a caller may well do that)
         self.t = t
         self.requests = requests
         self.gens = [None] * len(requests)
@@ -80,6 +81,13 @@ class Run(object):
         return [i for i in range(len(self.requests)) if not self.done[i]]
 
     def run(self, max_steps=100000):
+        if self.eager:
+            for i in range(len(self.requests)):
+                if self.gens[i] is None:
+                    if self.on_step:
+                        self.on_step("before-start", i, self)
+                    self.gens[i] = make_generator(self.t, self.requests[i])
+                    self.started[i] = True
         last = None
         ci = 0
         n = 0
